@@ -34,7 +34,6 @@ func frameTransportEffects(c *core.Ctx, R string) {
 				{name: "Once(close)", match: func(x *core.Unit, cl *core.Call) bool {
 					return mListener("Once", "close", "")(x, cl) && cl.Recv != nil && fieldOf(x.Info(), cl.Recv) == sp.connField
 				}},
-				{name: "go message()", match: func(x *core.Unit, cl *core.Call) bool { return cl.Go && cl.Name == "message" }},
 				{name: "SetWritable(true)", match: mNameBool("SetWritable", 0, true)},
 			})
 			if cl := f["On(error)"]; cl != nil {
@@ -51,9 +50,11 @@ func frameTransportEffects(c *core.Ctx, R string) {
 			}
 			// the reader is never run inline
 			inline := 0
-			for _, cl := range u.Calls() {
-				if cl.Name == "message" && !cl.Go {
-					inline++
+			for _, x := range c.P.Units {
+				for _, cl := range x.Calls() {
+					if cl.Key == base+"message" && !cl.Go && cl.Inlined == nil {
+						inline++
+					}
 				}
 			}
 			c.Check(R, base+"Construct/reader-not-inline", u.Pos(), inline == 0, "message() is only ever started as a goroutine")
